@@ -57,6 +57,7 @@ fn new_world() -> World {
 
 /// Borrow state of resource `R`: n = not borrowed, s = shared, x = exclusive.
 fn probe<R: Resource>(w: &World) -> char {
+    if !w.has_value::<R>() { return 'n'; }
     let free = catch_unwind(AssertUnwindSafe(|| { let g = w.try_fetch_mut::<R>(); g.is_some() }));
     if let Ok(true) = free { return 'n'; }
     if let Ok(false) = free { return '?'; }
@@ -88,18 +89,27 @@ fn decl_line<'a, D: ShredSystemData<'a>>(w: &'a World) -> String {
     }
 }
 
+/// One table line: a FRESH world in which only this handle's own `SystemData::setup` has run (what a dispatcher's
+/// `setup` does for a system using it), then `fetch` and the borrow probe.
+macro_rules! decl_fresh {
+    ($D:ty) => {{
+        let mut w = World::new();
+        let r = catch_unwind(AssertUnwindSafe(|| { <$D as ShredSystemData>::setup(&mut w); }));
+        if r.is_err() { "panic".to_string() } else { decl_line::<$D>(&w) }
+    }};
+}
+
 fn table(out: &mut String) {
-    let w = new_world();
-    out.push_str(&format!("decl readstorage 0 => {}\n", decl_line::<ReadStorage<CA>>(&w)));
-    out.push_str(&format!("decl readstorage 1 => {}\n", decl_line::<ReadStorage<CB>>(&w)));
-    out.push_str(&format!("decl readstorage 2 => {}\n", decl_line::<ReadStorage<CC>>(&w)));
-    out.push_str(&format!("decl readstorage 3 => {}\n", decl_line::<ReadStorage<CZ>>(&w)));
-    out.push_str(&format!("decl writestorage 0 => {}\n", decl_line::<WriteStorage<CA>>(&w)));
-    out.push_str(&format!("decl writestorage 1 => {}\n", decl_line::<WriteStorage<CB>>(&w)));
-    out.push_str(&format!("decl writestorage 2 => {}\n", decl_line::<WriteStorage<CC>>(&w)));
-    out.push_str(&format!("decl writestorage 3 => {}\n", decl_line::<WriteStorage<CZ>>(&w)));
-    out.push_str(&format!("decl entities => {}\n", decl_line::<Entities>(&w)));
-    out.push_str(&format!("decl readlazy => {}\n", decl_line::<Read<LazyUpdate>>(&w)));
+    out.push_str(&format!("decl readstorage 0 => {}\n", decl_fresh!(ReadStorage<CA>)));
+    out.push_str(&format!("decl readstorage 1 => {}\n", decl_fresh!(ReadStorage<CB>)));
+    out.push_str(&format!("decl readstorage 2 => {}\n", decl_fresh!(ReadStorage<CC>)));
+    out.push_str(&format!("decl readstorage 3 => {}\n", decl_fresh!(ReadStorage<CZ>)));
+    out.push_str(&format!("decl writestorage 0 => {}\n", decl_fresh!(WriteStorage<CA>)));
+    out.push_str(&format!("decl writestorage 1 => {}\n", decl_fresh!(WriteStorage<CB>)));
+    out.push_str(&format!("decl writestorage 2 => {}\n", decl_fresh!(WriteStorage<CC>)));
+    out.push_str(&format!("decl writestorage 3 => {}\n", decl_fresh!(WriteStorage<CZ>)));
+    out.push_str(&format!("decl entities => {}\n", decl_fresh!(Entities)));
+    out.push_str(&format!("decl readlazy => {}\n", decl_fresh!(Read<LazyUpdate>)));
 }
 
 
